@@ -3,5 +3,6 @@ import IQE.Props.C31
 #print axioms IQE.Props.C31.C31_wf_runs
 #print axioms IQE.Props.C31.C31_wf_runs_scoped
 #print axioms IQE.Props.C31.C31_qual_sound
+#print axioms IQE.Props.C31.C31_qual_reads
 #print axioms IQE.Props.C31.C31_wfq_wf
 #print axioms IQE.Props.C31.C31_no_new_bad
